@@ -141,6 +141,17 @@ check("C09", "model_checking",
       "Trusted: value projection, TLC. Sharing between containers is lost by a tree format: recorded as a known finding and tagged separately.",
       "TLC trace validation of snapshot/restore experiments at every crash point of TLA+-generated programs", "DESIGN.md section 4 C09")
 
+check("C06", "model_checking",
+      "Host contract c06 in spec/Trace_Host.tla (the generator of a VM is a stream identified by its seed: Deterministic - the outcome is a "
+      "function of program, configuration, variables and stream position; OwnStreamOnly - every die of a seeded VM comes from that VM's "
+      "generator; Resumable - a state captured with GetCurSeed and installed in a fresh context continues the sequence).  The harness runs "
+      "each generated dice program (all families, default-sides dice with DefaultDiceSideExpr, dice in functions, computed values, templates, "
+      "loops, shuffle/rand/randSize) twice under one seed with activity on other seeded and unseeded VMs and on the global generator in "
+      "between, resumes through GetCurSeed, logs every Roll call with the identity of its source (hook H2) and the state of the global "
+      "generator; TLC validates every experiment.",
+      "Trusted: hook H2's source identity, TLC. Statistical quality of the generator is C05's concern.",
+      "TLC trace validation of paired seeded runs, resumption and per-die source identity", "DESIGN.md section 4 C06")
+
 NOT_YET = "check under construction in this build phase (planned in DESIGN.md section 4); not yet claimed"
 
 m = {
